@@ -1,5 +1,6 @@
 // SPDX-License-Identifier: MIT
 pragma solidity ^0.7.6;
+// vendored from @openzeppelin/contracts@4.8.3 (audited at v0.8.19)
 
 interface IERC20Like {
     function transfer(address to, uint256 value) external returns (bool);
@@ -62,3 +63,5 @@ contract OldWitness {
         selfdestruct(payable(address(token)));
     }
 }
+
+// last reviewed against solc 0.8.21
